@@ -478,6 +478,7 @@ std::optional<std::pair<std::string, std::uint16_t>> parse_endpoint(const std::s
 }  // namespace
 
 std::vector<Node::ControlEndpoint> Node::preferred_control_endpoints() const {
+    SchedulerLock lock(scheduler_mutex_);
     std::vector<ControlEndpoint> endpoints;
     endpoints.reserve(config_.advertised_endpoints.size() + config_.auto_advertise_candidates.size() + 2);
     std::unordered_set<std::string> seen;
@@ -2160,6 +2161,7 @@ Node::TtlAuditReport Node::audit_ttl() const {
 }
 
 Node::ConnectivityReport Node::diagnose_connectivity() {
+    SchedulerLock lock(scheduler_mutex_);
     ConnectivityReport report{};
 
     if (nat_status_) {
@@ -2223,7 +2225,13 @@ void Node::tick() {
 void Node::start_transport(std::uint16_t port) {
     initialize_transport_handler();
     sessions_.start(port);
-    nat_status_ = nat_manager_.coordinate("0.0.0.0", sessions_.listening_port());
+    // Peers can connect from here on, and their handlers read the NAT status and the advertised
+    // endpoints: publish both under the scheduler mutex (the STUN round-trip stays outside it).
+    auto nat_status = nat_manager_.coordinate("0.0.0.0", sessions_.listening_port());
+    {
+        SchedulerLock lock(scheduler_mutex_);
+        nat_status_ = std::move(nat_status);
+    }
     if (relay_client_) {
         relay_client_->start();
     }
@@ -2834,6 +2842,7 @@ bool Node::deliver_manifest(const protocol::Manifest& manifest,
 }
 
 std::string Node::self_endpoint() const {
+    SchedulerLock lock(scheduler_mutex_);
     const auto port = sessions_.listening_port();
     if (port == 0) {
         return {};
@@ -2848,6 +2857,7 @@ std::string Node::self_endpoint() const {
 }
 
 void Node::refresh_advertised_endpoints() {
+    SchedulerLock lock(scheduler_mutex_);
     config_.auto_advertise_candidates.clear();
     config_.auto_advertise_warnings.clear();
     config_.auto_advertise_conflict = false;
